@@ -66,14 +66,37 @@ def run(tier, seed):
     for t, (o, j) in enumerate(zip(outs, jobs)):
         o["t"] = t
         recs.append(o)
-    path = chk.dir / "fuzz.ndjson"
-    write_ndjson(path, recs)
-    res2 = run_tlc("Trace_Fuzz", "Trace_Fuzz", workdir=chk.dir, env={"TRACE_FILE": str(path)}, timeout=3000, workers=1)
-    chk.add_tlc(res2)
-    if len(res2.records) != len(recs):
-        raise MachineryError(f"{len(recs)} fuzz batches but {len(res2.records)} verdicts")
+    # the judge reads its input as one JSON sequence: files of at most ~40 MB, one single-worker TLC run each, 6 at a time
+    # (the thorough tier produces gigabytes of outcomes)
+    files, cur, size = [], [], 0
+    for r in recs:
+        line = json.dumps(r, separators=(",", ":"))
+        if cur and size + len(line) > 40_000_000:
+            files.append(cur)
+            cur, size = [], 0
+        cur.append(line)
+        size += len(line)
+    if cur:
+        files.append(cur)
+    for old in chk.dir.glob("fuzz*.ndjson"):
+        old.unlink()
+    paths = []
+    for k, lines in enumerate(files):
+        path = chk.dir / f"fuzz_{k}.ndjson"
+        path.write_text("\n".join(lines) + "\n")
+        paths.append(path)
+    from concurrent.futures import ThreadPoolExecutor
+    with ThreadPoolExecutor(max_workers=6) as ex:
+        results = list(ex.map(lambda pth: run_tlc("Trace_Fuzz", "Trace_Fuzz", workdir=chk.dir, env={"TRACE_FILE": str(pth)},
+                                                  timeout=3000, workers=1, heap="4g"), paths))
+    verdicts = []
+    for res2 in results:
+        chk.add_tlc(res2)
+        verdicts += res2.records
+    if len(verdicts) != len(recs):
+        raise MachineryError(f"{len(recs)} fuzz batches but {len(verdicts)} verdicts")
     total = problems = 0
-    for v in res2.records:
+    for v in verdicts:
         rec, jb = recs[v["t"]], jobs[v["t"]]
         total += rec["n"]
         problems += sum(1 for o in rec["outs"] if o["outcome"] == "problem")
